@@ -315,6 +315,9 @@ func runC12(p *an.Prog, r *an.Run, tier string) {
 		r.Check(len(why) == 0, "limit-agree", driverKind(d), m.Pos(), "limit > 0 caps the result, limit 0 means unlimited", "%s", strings.Join(why, "; "))
 	}
 
+	// ---- inverse indexes beside the contract's maps (auxindex.go)
+	checkAuxIndexes(p, r)
+
 	// ---- SetNode keeps peers
 	checkSetNodeKeepsPeers(p, r)
 
